@@ -1127,13 +1127,13 @@ func genWorld(r *Rand, cfg GenCfg) Plan {
 			}
 		}
 		if r.Chance(0.3) {
-			ck.Prov = Pick(r, []string{"inv-built", "dlg-built", "all-built"})
+			ck.Prov = Pick(r, []string{"inv-built", "dlg-built", "all-built", "inv-json", "dlg-json", "all-json"})
 		}
 		switch spot {
 		case "prov-dlg":
-			ck.Prov = Pick(r, []string{"dlg-built", "all-built"})
+			ck.Prov = Pick(r, []string{"dlg-built", "all-built", "dlg-json", "all-json"})
 		case "prov-inv":
-			ck.Prov = Pick(r, []string{"inv-built", "all-built"})
+			ck.Prov = Pick(r, []string{"inv-built", "all-built", "inv-json", "all-json"})
 		}
 		ph := 0.25
 		if focus == "C03" {
